@@ -164,6 +164,30 @@ def law_free_group(ch):
             "free-group:value",
             f"group {grp} of {which}, mode {mode}: {len(keys)} elements "
             f"differ, e.g. {keys[0]}: {e1.get(keys[0])} vs {e2.get(keys[0])}")
+    # unfusing the leg of the fuse-then-contract result gives the direct
+    # contraction again (legs brought to the same order)
+    pos_f = [k for k, ix in enumerate(before.indices)
+             if ix.subinfo is not None]
+    if len(pos_f) == 1 and before.blocks:
+        un = must(before.unfuse, pos_f[0], what="unfuse(result)")
+        # leg order after unfusing: the group's axes in listed order at the
+        # fused position; bring r to that order
+        nfa = len(fa)
+        rest = [k for k in range(r.ndim) if k not in g2]
+        order = rest[:pos_f[0]] + list(g2) + rest[pos_f[0]:]
+        rt = must(r.transpose, tuple(order), what="transpose")
+        require(un.ndim == rt.ndim and list(un.duals) == list(rt.duals),
+                "free-group:unfuse-structure",
+                lambda: f"{un.duals} vs {rt.duals}")
+        ref_u = [dict(ix.chargemap) for ix in rt.indices]
+        try:
+            du = D.dense_of(un, ref=ref_u)
+        except Discrepancy:
+            ref_u = [dict(ix.chargemap) for ix in un.indices]
+            du = D.dense_of(un, ref=ref_u)
+        dense_equal(du, D.dense_of(rt, ref=ref_u), "free-group:unfuse-value",
+                    what=f"unfuse(fuse-then-contract) vs contract, group "
+                         f"{grp} of {which}, mode {mode}")
     ch.label("ferm" if ferm else "abel")
     ch.mark_nontrivial(gen.is_sparse(pair["a"]) or gen.is_sparse(pair["b"]))
 
